@@ -148,8 +148,11 @@ def make(i, prop=None):
         kw["ode"] = E(kw["ode"].name, None, tuple(kw["ode"].deps) + ("w",))
         if r2.random() < 0.5:
             kw["scales"] = dict(kw["scales"], w="unknown")
-        kw["constraints"] = list(kw["constraints"]) + [Con(E("cw", 1, ("w", "x") + ((("off", "w", r2.choice([1, -1])),) if r2.random() < 0.5 else ())), r2.choice(["le", "ge"]), 2.5,
-                                                           grid=r2.choice([None, None, "integrator"]), include_last=r2.random() < 0.7)]
+        off_w = (("off", "w", r2.choice([1, -1])),) if r2.random() < 0.5 else ()
+        rel_w, grid_w, last_w = r2.choice(["le", "ge"]), r2.choice([None, None, "integrator"]), r2.random() < 0.7
+        if off_w and grid_w == "integrator":
+            grid_w = None          # shifted operands exist on the control grid only (rockit rejects them on the integrator grid)
+        kw["constraints"] = list(kw["constraints"]) + [Con(E("cw", 1, ("w", "x") + off_w), rel_w, 2.5, grid=grid_w, include_last=last_w)]
         if r2.random() < 0.5:
             kw["objective"] = list(kw["objective"]) + [(r2.choice(["sum", "at_tf"]), E("ow", 1, ("w", "x")))]
     return kw
